@@ -134,6 +134,7 @@ func c14Pay(c *fw.Ctx, i int) {
 	var expect [][]byte
 	var payloads [][]byte
 	var callDesc []string
+	fTrain := r.Chance(1, 12)
 	for cidx := 0; cidx < ncalls; cidx++ {
 		n := r.Range(1, 6)
 		var units [][]byte
@@ -180,6 +181,14 @@ func c14Pay(c *fw.Ctx, i int) {
 				}
 			}
 		}
+		if fTrain {
+			// forbidden_zero_bit set (units damaged in transit, forwarded as they are): F travels with the unit
+			for _, u := range units {
+				if r.Chance(1, 3) {
+					u[0] |= 0x80
+				}
+			}
+		}
 		in, sc := gen.AnnexB(r, units)
 		var out [][]byte
 		if pv, st := fw.Guard(func() { out = p.Payload(uint16(mtu), in) }); pv != nil {
@@ -195,7 +204,7 @@ func c14Pay(c *fw.Ctx, i int) {
 		d := ""
 		for k, u := range units {
 			h := ref.ParseH265Hdr(u)
-			d += fmt.Sprintf("[sc%d t%d l%d tid%d %dB]", sc[k], h.Type, h.Layer, h.TID, len(u))
+			d += fmt.Sprintf("[sc%d t%d l%d tid%d F%v %dB]", sc[k], h.Type, h.Layer, h.TID, h.F, len(u))
 		}
 		callDesc = append(callDesc, d)
 	}
@@ -338,6 +347,14 @@ func c14Pay(c *fw.Ctx, i int) {
 		return
 	}
 	c.Count("payload_trains_lossless", 1)
+	for _, u := range expect {
+		if u[0]&0x80 != 0 {
+			// H265Packet refuses every payload whose forbidden_zero_bit is set (by design: "corrupted h265 packet"), so a train
+			// that carries such a unit is judged by the independent RFC 7798 reassembler alone (F must have travelled with the unit)
+			c.Count("trains_with_F_bit_units_judged_by_the_reference_parser_only", 1)
+			return
+		}
+	}
 	// through the library's parser
 	lu, lheads, lerr, pv, st := c14LibUnits(payloads, donl)
 	c.Evals(2 * len(payloads))
